@@ -42,6 +42,16 @@ NEEDS = {
  'C19_2': ('project-name uniqueness misses the root\'s own name', 'a transitively imported project reusing the root\'s name'),
  'C20_1': ('aggregate answers a late requester only when BOTH kinds are available', 'an aggregate reached directly and through a long chain of nested aggregates with a slow build behind'),
  'C20_2': ('aggregate `actual` flag becomes last-acknowledgement-wins', 'a service-less nested branch acknowledging after a real service (nesting depth >= 5)'),
+ 'C01_3': ('the X.output dependency edge is registered only if X was not loaded yet (config/ir.rs)', 'a second consumer of one generator, or the producer named before the consumer on the command line'),
+ 'C03_3': ('list_files_in_resources/paths return a Vec (duplicates) while eq_current_state compares lengths with a map', 'a target reaching one file through two declared paths or resources'),
+ 'C04_3': ('a build skipped as Not Modified no longer marks the target executed', 're-run on an unchanged tree; a skipped target with a second requester whose request arrives after the skip (deep aggregate chain)'),
+ 'C06_3': ('one notify watcher per target with a path->filter map: a second resource on the same path overwrites the first filter', 'watch mode; one path listed twice with different extensions; an idle-time change selected only by the first'),
+ 'C07_3': ('`executed` removed and derived; after a failure the build answers a late requester with Ok', 'watch mode; a failing build with two requesters, the second request arriving after the failure (slow watcher registration)'),
+ 'C08_3': ('builds release their dependency services when done; a service whose last requester leaves stops and resets', 'a service shared by two builds, the second request arriving after the first build finished (deep chain)'),
+ 'C10_3': ('invalidation during a build replaces the build future without killing the superseded script', 'watch mode; a change landing mid-build; then SIGINT/SIGTERM before the old script ends by itself'),
+ 'C11_3': ('engine error returns before TargetActors::terminate (main.rs `?`)', 'one-shot; a service started, then a failing build'),
+ 'C17_3': ('a process-wide async mutex held across the build script for targets with inputs', 'two independent builds both declaring inputs, one of them slow'),
+ 'C20_3': ('root loop keeps one actual kind per root id: a later Ok overwrites the earlier one', 'one-shot; requested aggregate over a service and a build finishing after the service started'),
 }
 rows = []
 for d in sorted(glob.glob('/verif/seeded/C*_*')):
